@@ -414,7 +414,9 @@ func (set *Set) MarkHostHealthy(host *Host) bool {
 	}
 	set.Lock()
 	defer set.Unlock()
-	if _, ok := set.all[host.Addr]; !ok {
+	// the host may have been removed or replaced (same address, new
+	// object) since the caller got it, only the member itself counts.
+	if member, ok := set.all[host.Addr]; !ok || member != host {
 		return false
 	}
 	set.addToHealthy(host)
@@ -428,7 +430,9 @@ func (set *Set) MarkHostUnhealthy(host *Host) bool {
 	}
 	set.Lock()
 	defer set.Unlock()
-	if _, ok := set.all[host.Addr]; !ok {
+	// the host may have been removed or replaced (same address, new
+	// object) since the caller got it, only the member itself counts.
+	if member, ok := set.all[host.Addr]; !ok || member != host {
 		return false
 	}
 	set.removeFromHealthy(host)
